@@ -51,10 +51,9 @@ impl MergeCtx {
 
         match state {
             ExecutedState::Call(CallResult::Executed(ValueRef::Stream { generation, .. })) => Ok(*generation),
-            // such Aps are always preceded by Fold where corresponding stream could be used
-            // so it's been already checked that res_generation is well-formed
-            // and accessing 0th element is safe here
-            ExecutedState::Ap(ap_result) => Ok(ap_result.res_generations[0]),
+            // a fold lore can point at an Ap state that no ap instruction has merged (and so validated) yet,
+            // so the generation list must not be assumed to be well-formed here
+            ExecutedState::Ap(ap_result) if ap_result.res_generations.len() == 1 => Ok(ap_result.res_generations[0]),
             state => Err(KeeperError::NoStreamState { state: state.clone() }),
         }
     }
